@@ -43,6 +43,7 @@ def run(ctx):
         ctx.guard(c06.k3, ctx, cfg, fs, table)
         ctx.guard(c06.k5, ctx, cfg, fs)
         ctx.guard(c06.loop_conditions, ctx, cfg, fs)
+        ctx.guard(c06.count_counts, ctx, cfg, fs)
         ctx.guard(consumers.ledger_callers, ctx, cfg, fs, 'P.primitives')
         ctx.guard(c06.len_threaded, ctx, cfg, fs)
         ctx.guard(parsecon, ctx, cfg, fs)
